@@ -1,0 +1,33 @@
+//go:build verif
+
+package server
+
+import "github.com/DrmagicE/gmqtt/pkg/packets"
+
+// VerifLimiter exposes the unexported packetIDLimiter to the conformance harness.
+type VerifLimiter struct{ p *packetIDLimiter }
+
+func NewVerifLimiter(limit uint16) *VerifLimiter { return &VerifLimiter{p: newPacketIDLimiter(limit)} }
+
+// Poll is pollPacketIDs; it blocks while the window is full and the limiter is not closed.
+func (l *VerifLimiter) Poll(max uint16) []packets.PacketID  { return l.p.pollPacketIDs(max) }
+func (l *VerifLimiter) Release(id packets.PacketID)         { l.p.release(id) }
+func (l *VerifLimiter) BatchRelease(ids []packets.PacketID) { l.p.batchRelease(ids) }
+func (l *VerifLimiter) MarkUsed(id packets.PacketID) {
+	l.p.lock()
+	l.p.markUsedLocked(id)
+	l.p.unlock()
+}
+func (l *VerifLimiter) Close() { l.p.close() }
+func (l *VerifLimiter) Used() uint16 {
+	l.p.lock()
+	defer l.p.unlock()
+	return l.p.used
+}
+
+// VerifWouldBlock reports whether Poll would block right now.
+func (l *VerifLimiter) VerifWouldBlock() bool {
+	l.p.lock()
+	defer l.p.unlock()
+	return l.p.used >= l.p.limit && !l.p.exit
+}
